@@ -205,3 +205,77 @@ fn c01_repair_decision() {
     core::mem::forget(r);
     core::mem::forget(mem);
 }
+
+// ---- the same decision on fully concrete state (closes: see DESIGN.md 9.1 on Arc and constants) ----
+
+fn repair_case(p: usize) {
+    // the 2PC flag is an input of the query, dispatched so that each path runs on concrete state
+    if kani::any() {
+        repair_case_on(p, true);
+    } else {
+        repair_case_on(p, false);
+    }
+}
+
+fn repair_case_on(p: usize, two_phase: bool) {
+    let mut mem = Arc::new(crate::tree_store::verif_literal_mem_concrete());
+    crate::tree_store::verif_set_cur_mem(&mem);
+    mem.verif_set_primary(p);
+    mem.verif_set_two_phase(two_phase);
+    unsafe {
+        VERIFIES = [kani::any(), kani::any()];
+    }
+    let p0 = mem.verif_primary_index();
+    let v = unsafe { VERIFIES };
+    let r = Database::do_repair(&mut mem, &no_callback);
+    let (n, kinds) = crate::tree_store::verif_events();
+    let p1 = mem.verif_primary_index();
+    let (recovery_required, _) = mem.verif_flags();
+    match &r {
+        Ok(_) => {
+            assert!(v[p1], "repair ends on a slot whose tree verifies");
+            assert!((p1 != p0) == (!v[p0] && !two_phase), "falls back exactly when the primary does not verify and the 2PC flag is clear");
+            assert!(unsafe { REBUILD_CALLS } == 1 && unsafe { PRIMARY_AT_REBUILD } == p1, "allocator rebuilt from the verified slot");
+            assert!(n == 2 && kinds[0] == 1 && kinds[1] == 2, "flag cleared by one header write followed by one flush");
+            assert!(crate::tree_store::verif_image_god_byte(0) & 2 == 0 && !recovery_required);
+            assert!(crate::tree_store::verif_image_god_byte(0) & 1 == p1 as u8, "the written header names the verified slot");
+            kani::cover!(p1 != p0, "fell back to the secondary");
+            kani::cover!(p1 == p0, "primary verified");
+        }
+        Err(_) => {
+            assert!(!v[p0] && (two_phase || !v[p0 ^ 1]), "error only if nothing usable verifies");
+            assert!(n == 0, "no header write on a failed repair");
+            assert!(recovery_required, "the recovery flag stays set");
+            assert!(unsafe { REBUILD_CALLS } == 0);
+            kani::cover!(two_phase, "corrupt primary under the 2PC flag is an error");
+        }
+    }
+    core::mem::forget(r);
+    core::mem::forget(mem);
+}
+
+macro_rules! repair_harness {
+    ($name:ident, $p:expr) => {
+        #[kani::proof]
+        #[kani::unwind(22)]
+        #[kani::stub(Database::verify_primary_checksums, stub_verify_primary)]
+        #[kani::stub(Database::rebuild_allocator_state, stub_rebuild)]
+        #[kani::stub(TransactionalMemory::write_header, crate::tree_store::page_store::page_manager::verif_kani::stub_write_header)]
+        #[kani::stub(crate::tree_store::page_store::cached_file::PagedCachedFile::flush, crate::tree_store::page_store::page_manager::verif_kani::stub_flush)]
+        #[kani::stub(crate::tree_store::page_store::page_manager::xxh3_checksum, crate::tree_store::page_store::header::verif_kani::uf_checksum)]
+        #[kani::stub(alloc::fmt::format, no_format)]
+        #[kani::stub(alloc::sync::Arc::drop_slow, stub_arc_drop_slow)]
+        fn $name() {
+            repair_case($p);
+        }
+    };
+}
+
+// @harness props=C01,C12 tier=thorough timeout=3600 mem=32 stubbing=1 flavor=nodebug replay=scenario:crash attempt=1
+// @desc Database::do_repair on a concrete header (primary index as named) for both values of the 2PC flag and EVERY answer of the tree-verification oracle for the two slots: it ends on a slot that verifies; it falls back to the secondary exactly when the primary does not verify and the 2PC flag is clear; a primary that does not verify under the 2PC flag, or two slots that do not verify, yield an error WITHOUT any header write (the recovery flag stays set); the allocator state is rebuilt from the slot that verified; recovery_required is cleared only after that, by exactly one header write followed by one flush
+// @functions Database::{do_repair,primary_verifies}, TransactionalMemory::{repair_primary_corrupted,used_two_phase_commit,clear_recovery_required,clear_read_cache}, DatabaseHeader::swap_primary_slot
+// @bound concrete two-slot header (contents play no role in the decision), primary index fixed per harness, 2PC flag and the oracle's answer per slot arbitrary
+// @stubs Database::verify_primary_checksums -> oracle V; Database::rebuild_allocator_state -> records the primary index; TransactionalMemory::write_header, PagedCachedFile::flush -> event log; xxh3_checksum -> uninterpreted; alloc::fmt::format -> empty; Arc::drop_slow -> path ends
+// @assumes A-MERKLE (a commit whose pages are not all durable does not verify), modelled by the oracle
+repair_harness!(c01_repair_decision_concrete_p0, 0);
+repair_harness!(c01_repair_decision_concrete_p1, 1);
